@@ -314,7 +314,9 @@ def make_dataset(e, sg, occupation, tag="", transform=None, order=None, wrap=Tru
         ds["wyckoffs"] = list(ds["wyckoffs"]) * 2
         co = np.asarray(ds["crystallographic_orbits"])
         ds["crystallographic_orbits"] = np.concatenate([co, co])
-        ds["equivalent_atoms"] = ds["crystallographic_orbits"].copy()
+        # spglib's `equivalent_atoms` reflects the symmetry of the *input* cell and may split a crystallographic orbit for a
+        # supercell of lower lattice symmetry: the contract hands out a proper refinement (second copy in classes of its own)
+        ds["equivalent_atoms"] = np.concatenate([co, co + n])
         mp = np.asarray(ds["mapping_to_primitive"])
         ds["mapping_to_primitive"] = np.concatenate([mp, mp])
         lat2 = np.array(ds["std_lattice"], dtype=object).copy()
